@@ -5,7 +5,21 @@
 (* corrupted, at most b resp. f of them) are checked against the           *)
 (* property-layer operators of Robust.tla.                                 *)
 (*                                                                         *)
-(* episode: [ep, kind, par, ja, jb, oa, ob, bad, exc, out, calls]           *)
+(* episode: [ep, h, pos, dtype, kind, par, ja, jb, oa, ob, bad, exc, out,   *)
+(*           calls]                                                        *)
+(*   h, pos HISTORIES: h = 0 - the call was made on a fresh object; h > 0 -  *)
+(*          the pos-th call on the object(s) of history h (one TrimmedMean *)
+(*          object, resp. one Krum object per n_selected of `calls`), the  *)
+(*          episodes of a history being consecutive.  The clause of a call *)
+(*          is computed from the matrix of THAT call only, whatever the    *)
+(*          object was given before (Robust!HistPerCall): TMClause /       *)
+(*          KrumClauseAt below look at E and at nothing else.  The spec    *)
+(*          checks that the log is a history (consecutive positions, same  *)
+(*          object parameters: MALFORMED otherwise) and counts the calls   *)
+(*          whose exactly decided result differs from the previous call's  *)
+(*          although the number of rows and the dtype are the same         *)
+(*          (`changed`: the history shape in which a remembered selection  *)
+(*          would show).                                                   *)
 (*   ja, jb the SPREAD matrix; the aggregator was called on                *)
 (*          (ja + oa) + S * (jb + ob): a common offset changes neither the  *)
 (*          distances nor the scores (Robust!OffsetInvariant), so the      *)
@@ -30,14 +44,17 @@ Episodes == JsonDeserialize(IOEnv.TRACE_FILE)
 NEp      == Len(Episodes)
 
 VARIABLES ep, stage, nAcc, nRej, nAmb, nCalls,
-          cur      \* the relation "definitely smaller score" of the episode just validated
-tvars == <<kind, m, par, hs, status, corrupt, JA, JB, ep, stage, nAcc, nRej, nAmb, nCalls, cur>>
+          cur,     \* the relation "definitely smaller score" of the episode just validated
+          nHist, nHCalls, nChg, nMal   \* histories, calls in histories, changed results, malformed links
+tvars == <<kind, m, par, hs, status, corrupt, JA, JB, hist, ep, stage, nAcc, nRej, nAmb, nCalls, cur,
+           nHist, nHCalls, nChg, nMal>>
 
 E == Episodes[ep]
 SeqSet(s) == {s[i] : i \in DOMAIN s}
 
 TInit == /\ kind = "tm" /\ m = 1 /\ par = 0 /\ hs = 0 /\ status = "ok" /\ corrupt = {}
-         /\ JA = <<<<0>>>> /\ JB = <<<<0>>>>
+         /\ JA = <<<<0>>>> /\ JB = <<<<0>>>> /\ hist = <<>>
+         /\ nHist = 0 /\ nHCalls = 0 /\ nChg = 0 /\ nMal = 0
          /\ ep = 1 /\ stage = "run" /\ nAcc = 0 /\ nRej = 0 /\ nAmb = 0 /\ nCalls = 0 /\ cur = {}
 
 \* ---------------------------------------------------------------- TrimmedMean
@@ -80,6 +97,30 @@ KrumAmbiguousAt(rel, c) ==
     LET mm == Len(E.ja) IN
     KrumAdmissible(mm, E.par, c.k) /\ Cardinality(MustIn(rel, 1..mm, c.k)) # c.k
 
+\* ---------------------------------------------------------------- histories
+KsOf(e) == [x \in DOMAIN e.calls |-> e.calls[x].k]
+\* episode e continues the history of the previous episode p: next position, same object(s)
+LinkOK(e, p) == /\ p.h = e.h /\ p.pos + 1 = e.pos
+                /\ p.kind = e.kind /\ p.par = e.par /\ KsOf(p) = KsOf(e)
+Malformed == E.h # 0 /\ E.pos # 1 /\ (ep = 1 \/ ~LinkOK(E, Episodes[IF ep = 1 THEN 1 ELSE ep - 1]))
+\* number of results of this episode that are exactly decided, as were the previous call's on the same
+\* object, and differ from them, the number of rows and the dtype being the same
+\* (relNow / relPrev: the relations of this and of the previous episode)
+Changed(relNow, relPrev) ==
+    IF E.h = 0 \/ E.pos = 1 \/ ep = 1 THEN 0
+    ELSE LET P  == Episodes[ep - 1]
+             mm == Len(E.ja)
+         IN  IF ~LinkOK(E, P) \/ Len(P.ja) # mm \/ P.dtype # E.dtype THEN 0
+             ELSE IF E.kind = "tm"
+                  THEN (IF TMAdmissible(mm, E.par) /\ PropTM(E.ja, E.jb, E.par) # PropTM(P.ja, P.jb, P.par) THEN 1 ELSE 0)
+                  ELSE IF mm < E.par + 3 THEN 0
+                  ELSE Cardinality({x \in DOMAIN E.calls :
+                          LET k == E.calls[x].k IN
+                          /\ k <= mm
+                          /\ Cardinality(MustIn(relNow, 1..mm, k)) = k
+                          /\ Cardinality(MustIn(relPrev, 1..mm, k)) = k
+                          /\ MustIn(relNow, 1..mm, k) # MustIn(relPrev, 1..mm, k)})
+
 TStep == /\ ep <= NEp /\ stage = "run"
          \* computed once per episode and held in the next state (a LET would be re-evaluated per call)
          /\ cur' = IF E.kind = "krum" /\ Len(E.ja) >= E.par + 3 THEN KrumRel ELSE {}
@@ -89,19 +130,27 @@ TStep == /\ ep <= NEp /\ stage = "run"
                        ELSE << [k |-> 0, cl |-> TMClause] >>
                 bad == {x \in DOMAIN cls : cls[x].cl # "none"}
                 amb == IF isK THEN Cardinality({x \in DOMAIN E.calls : KrumAmbiguousAt(rel, E.calls[x])}) ELSE 0
-            IN  /\ \A x \in bad : PrintT(<<"REJECT", ToJson([ep |-> E.ep, k |-> cls[x].k, clause |-> cls[x].cl])>>)
+            IN  /\ \A x \in bad : PrintT(<<"REJECT", ToJson([ep |-> E.ep, h |-> E.h, pos |-> E.pos, k |-> cls[x].k,
+                                                                 clause |-> cls[x].cl])>>)
+                /\ Malformed => PrintT(<<"MALFORMED", ToJson([ep |-> E.ep, h |-> E.h, pos |-> E.pos])>>)
+                /\ nMal' = nMal + (IF Malformed THEN 1 ELSE 0)
+                /\ nHist' = nHist + (IF E.h # 0 /\ E.pos = 1 THEN 1 ELSE 0)
+                /\ nHCalls' = nHCalls + (IF E.h # 0 THEN Len(cls) ELSE 0)
+                /\ nChg' = nChg + Changed(rel, cur)
                 /\ nAcc' = nAcc + (IF bad = {} THEN 1 ELSE 0)
                 /\ nRej' = nRej + (IF bad = {} THEN 0 ELSE 1)
                 /\ nAmb' = nAmb + amb
                 /\ nCalls' = nCalls + Len(cls)
          /\ ep' = ep + 1
-         /\ UNCHANGED <<kind, m, par, hs, status, corrupt, JA, JB, stage>>
+         /\ UNCHANGED <<kind, m, par, hs, status, corrupt, JA, JB, hist, stage>>
 
 TDone == /\ ep = NEp + 1 /\ stage = "run"
          /\ PrintT(<<"SUMMARY", ToJson([episodes |-> NEp, accepted |-> nAcc, rejected |-> nRej,
-                                         ambiguous |-> nAmb, calls |-> nCalls])>>)
+                                         ambiguous |-> nAmb, calls |-> nCalls, histories |-> nHist,
+                                         histcalls |-> nHCalls, changed |-> nChg, malformed |-> nMal])>>)
          /\ stage' = "end"
-         /\ UNCHANGED <<kind, m, par, hs, status, corrupt, JA, JB, ep, nAcc, nRej, nAmb, nCalls, cur>>
+         /\ UNCHANGED <<kind, m, par, hs, status, corrupt, JA, JB, hist, ep, nAcc, nRej, nAmb, nCalls, cur,
+                        nHist, nHCalls, nChg, nMal>>
 
 TNext == TStep \/ TDone
 TraceSpec == TInit /\ [][TNext]_tvars
